@@ -1,9 +1,12 @@
 import BSModel.Driver.Util
 import BSModel.Model.EncodingOut
+import BSModel.Model.EncodingOutUtf
 /-! line protocol of C08 (output in a target encoding)
 
     c08 xcr <codec> <cps>                     xmlcharrefreplace C s                      -> cps
-    c08 enc <codec> <s|x> <cps>               pyEncode C strict|xmlcharrefreplace s      -> B:<bytes> | E:<pos>:<cp>
+    c08 enc <codec> <s|i|r|x|b> <cps>         pyEncode C strict|ignore|replace|xmlcharrefreplace|backslashreplace s
+                                                                                         -> B:<bytes> | E:<pos>:<cp>
+    c08 sniff <bytes>                         sniffBom                                   -> utf-16be|utf-16le|utf-8|utf-32be|utf-32le|N
     c08 dec <codec> <bytes>                   C.dec                                      -> cps | N
     c08 subcs <e>                             CharsetMetaAttributeValue.substitute_encoding
     c08 subc <e> <orig>                       ContentMetaAttributeValue.substitute_encoding
@@ -15,7 +18,8 @@ import BSModel.Model.EncodingOut
     c08 read <t|a> <codec|-> <cps>            readText (orig = that single-byte codec) / readAttr (quoted value)
     c08 find <cps>                            findDeclared                               -> cps | N
 
-    codec := sb:<name cps>  (generated single-byte table)  |  set:<0|1>:<encodable cps>  (identity bytes; 1 = ASCII encodable too)
+    codec := sb:<name cps>  (generated single-byte table)  |  utf:<name cps>  (utf-8, utf-16[-le|-be], utf-32[-le|-be])
+             |  set:<0|1>:<encodable cps>  (identity bytes; 1 = ASCII encodable too)
     tree  := S <cps> | T <name> <nattrs> (<key> <p|c|m> <val>)*nattrs <nkids> tree*nkids -/
 namespace BS.Drv.C08
 open BS.EncodingOut BS.Drv BS.Gen.EncodingOut
@@ -27,12 +31,25 @@ def lookupSb (nm : PStr) : List (PStr × List Nat) → Option (List Nat)
 def parseCodec (s : String) : Option Codec :=
   match s.splitOn ":" with
   | ["sb", nm] => (lookupSb (cps nm) sbCodecs).map tableCodec
+  | ["utf", nm] => (utfCodecs.find? (fun p => p.1 == cps nm)).map (·.2)
   | ["set", a, l] => some (setCodec (cps l) (a == "1"))
   | _ => none
 
 def showRes : EncResult → String
   | .bytes b => "B:" ++ showL b
   | .unicodeEncodeError p c => s!"E:{p}:{c}"
+
+def parseHandler (h : String) : Handler :=
+  if h == "s" then .strict else if h == "i" then .ignore else if h == "r" then .replace
+  else if h == "b" then .backslashreplace else .xmlcharrefreplace
+
+def showSniff : Option Sniffed → String
+  | some .utf16be => "utf-16be"
+  | some .utf16le => "utf-16le"
+  | some .utf8 => "utf-8"
+  | some .utf32be => "utf-32be"
+  | some .utf32le => "utf-32le"
+  | none => "N"
 
 def parseKind (k : String) (v : PStr) : AttrVal :=
   if k == "c" then .charsetMeta v else if k == "m" then .contentMeta v else .plain v
@@ -88,13 +105,14 @@ def handle (toks : List String) : String :=
     | some C => showL (xmlcharrefreplace C (cps s))
     | none => "bad-codec"
   | ["enc", c, h, s] => match parseCodec c with
-    | some C => showRes (pyEncode C (if h == "s" then .strict else .xmlcharrefreplace) (cps s))
+    | some C => showRes (pyEncode C (parseHandler h) (cps s))
     | none => "bad-codec"
   | ["dec", c, b] => match parseCodec c with
     | some C => match C.dec (cps b) with
       | some s => showL s
       | none => "N"
     | none => "bad-codec"
+  | ["sniff", b] => showSniff (sniffBom (cps b))
   | ["subcs", e] => showL (substituteCharset (cps e))
   | ["subc", e, o] => showL (substituteContent (cps e) (cps o))
   | ["search", o] => bit (charsetReSearch true (cps o))
@@ -116,6 +134,10 @@ def handle (toks : List String) : String :=
     | some C, some (t, []) =>
       showRes (match entry with
         | "e" => encodeImpl (cps nm) C none t
+        | "ei" => encodeImpl (cps nm) C none t .ignore
+        | "er" => encodeImpl (cps nm) C none t .replace
+        | "eb" => encodeImpl (cps nm) C none t .backslashreplace
+        | "es" => encodeImpl (cps nm) C none t .strict
         | "p" => prettifyImpl (cps nm) C t
         | "c" => encodeContentsImpl (cps nm) C none t
         | _ => encodeContentsWith .strict (cps nm) C none t)
